@@ -6,11 +6,13 @@
 import json, os, shutil, subprocess, sys, time
 out_dir, prop, letter = sys.argv[1:4]
 extra = sys.argv[4:]
-REPO = '/repo'
+# evaluated on a scratch worktree of /repo's HEAD (other processes may be reading /repo)
+REPO = f'/tmp/eval_repo_{prop}_{letter}'
 def sh(cmd, cwd=None, timeout=3000, env=None):
     p = subprocess.run(cmd, shell=True, cwd=cwd, capture_output=True, text=True, timeout=timeout, env=env)
     return p.returncode, (p.stdout + p.stderr)
-assert sh('git status --porcelain', REPO)[1].strip() == '', 'repo not clean'
+sh(f'git -C /repo worktree remove --force {REPO}')
+rc_, o_ = sh(f'git -C /repo worktree add -q --detach {REPO} HEAD'); assert rc_ == 0, o_
 diff = os.path.join(out_dir, f'{letter}.diff'); demo = os.path.join(out_dir, f'demo_{letter}.py')
 meta = json.load(open(os.path.join(out_dir, f'meta_{letter}.json')))
 res = {'agent_meta': meta, 'runs': []}
@@ -26,7 +28,7 @@ else:
         res['demo_mutant_tail'] = o1[-600:]
         for p in [prop] + extra:
             t = time.time()
-            rcc, oc = sh(f'./check {p} --tier quick', '/verif', 3000)
+            rcc, oc = sh(f'./check {p} --tier quick', '/verif', 3000, env=dict(os.environ, VERIF_REPO=REPO))
             lines = [l for l in oc.split('\n') if l.startswith(('VIOLATION', 'OK ', 'KNOWN-FINDING', 'ERROR'))]
             r = {'check': p, 'rc': rcc, 'lines': lines[:6], 'wall_s': round(time.time() - t, 1)}
             for l in lines:
@@ -39,8 +41,8 @@ else:
                     break
             res['runs'].append(r)
     finally:
-        sh('git checkout -- .', REPO)
-        sh('git clean -fdq moPepGen test', REPO)
+        pass
+sh(f'git -C /repo worktree remove --force {REPO}')
 dst = f'/verif/seeded/{prop}_{letter}'
 os.makedirs(dst, exist_ok=True)
 shutil.copy(diff, os.path.join(dst, 'patch.diff')); shutil.copy(demo, os.path.join(dst, 'demo.py'))
